@@ -245,6 +245,10 @@ def run(ctx):
         else:
             compare_run(ctx, pool, 'inv4', 4, voff=0, vspan=1, movevecs='MoveVecsSub', methods=nb,
                         moves=('mono', 'scale', 'affine'), monohi=3, emitmod=8, moveemitmod=2)
+        # four conditions, >= 3 distinct values per RDM (the binary grid above makes every increasing map affine):
+        # the subset_pattern step after the real transforms needs this to be sensitive
+        compare_run(ctx, pool, 'inv4s', 4, voff=1, vspan=3, vecs='StackVecs', movevecs='StackVecs', methods=nb,
+                    moves=('mono', 'scale', 'affine'), monohi=4, emitmod=1, moveemitmod=4)
         tot = sk = 0
         for nc, ntr in ((5, 1500 if thorough else 200), (6, 1000 if thorough else 100)):
             n, s = inv_traces(ctx, pool, nc, ntr)
